@@ -1,4 +1,4 @@
-use std::path::Path;
+use std::path::{Path, PathBuf};
 
 use crate::{Package, RotoError, RotoReport, Runtime, runtime::OptCtx};
 
@@ -212,7 +212,13 @@ impl FileTree {
         let mut tree = Self {
             files: vec![pkg_file],
         };
-        tree.find_files(0, root)?;
+        // The directories we are in, so that a symbolic link that leads
+        // back to one of them is not taken for a module of its own.
+        let mut inside = Vec::new();
+        if let Ok(root) = std::fs::canonicalize(root) {
+            inside.push(root);
+        }
+        tree.find_files(0, root, &mut inside)?;
         Ok(tree)
     }
 
@@ -220,6 +226,7 @@ impl FileTree {
         &mut self,
         parent_id: usize,
         path: &Path,
+        inside: &mut Vec<PathBuf>,
     ) -> Result<(), RotoReport> {
         for entry in
             std::fs::read_dir(path).map_err(|e| read_error(path, e))?
@@ -230,7 +237,15 @@ impl FileTree {
             // `Path::is_dir` follows symbolic links, like reading a linked
             // `.roto` file below does, so a linked directory is a module too.
             if path.is_dir() {
-                self.process_subdir(parent_id, &path)?;
+                let real = std::fs::canonicalize(&path)
+                    .map_err(|e| read_error(&path, e))?;
+                if inside.contains(&real) {
+                    continue;
+                }
+                inside.push(real);
+                let res = self.process_subdir(parent_id, &path, inside);
+                inside.pop();
+                res?;
                 continue;
             }
 
@@ -271,6 +286,7 @@ impl FileTree {
         &mut self,
         parent_id: usize,
         path: &Path,
+        inside: &mut Vec<PathBuf>,
     ) -> Result<(), RotoReport> {
         let file_path = path.join("mod.roto");
 
@@ -284,6 +300,6 @@ impl FileTree {
         self.files.push(file);
         self.files[parent_id].children.push(idx);
 
-        self.find_files(idx, path)
+        self.find_files(idx, path, inside)
     }
 }
